@@ -421,7 +421,10 @@ def cont (env : Env) (brk : Nat → Bool) (n : Nat) (m : StreamM) (pos : Nat) : 
   egress false (telemetry env (amb env (env.sid n)) m.name
     (turnOutcome (Engine.Http.serveContinuation brk m.steps pos) true))
 
-/-- exchange turn (`_run_http_exchange_turn`, `_exchange_error_response`) at cursor `pos` -/
+/-- exchange turn (`_run_http_exchange_turn`, `_exchange_error_response`) at cursor `pos`.  The function has three error
+paths, each with its own `http_status` (extracted separately: `exchangeResolve`, `exchangeCoerce`, `exchangeRaise`); a
+generated exchange sends inline, conforming batches, so only the third — `state.process()` and what follows it — is reachable
+here; the other two refuse the *input* before the method runs. -/
 def exchOutcome (m : StreamM) (pos : Nat) (over : Option Exn) : Outcome :=
   match clsAt true m.steps pos with
   | .fail e => { err := some e, http := stOf G.exchangeRaise, requestState := true }
